@@ -65,6 +65,17 @@ int main(VF_MAIN_ARGS)
             VF_WITNESS("invalid");
         }
     }
+    if (VF_ON(10) && ok && vf_fail_at == 0) {
+        /* C10 prefix re-parse: the same literal in a buffer that ENDS at the reported parse end decodes to the same string */
+        parse_buffer b2; cJSON it2; unsigned char *c2 = (unsigned char *)malloc(M); size_t e = buf.offset, q;
+        VF_NONNULL(c2);
+        for (q = 0; q < M; q++) c2[q] = content[q];
+        memset(&b2, 0, sizeof b2); memset(&it2, 0, sizeof it2);
+        b2.content = c2; b2.length = e; b2.offset = off; b2.hooks = buf.hooks;      /* bytes at and behind e are out of bounds for the parser */
+        VF_AP(10, parse_string(&it2, &b2), "C10 the bytes before the parse end form by themselves a string literal that is accepted");
+        if (it2.valuestring) { VF_AP(10, b2.offset == e && strcmp(it2.valuestring, item.valuestring) == 0, "C10 ... and decode to the same string with the same end"); vf_free(it2.valuestring); }
+        free(c2);
+    }
     VF_WITNESS("end");
     if (ok) vf_free(item.valuestring);
     free(content);
